@@ -107,42 +107,47 @@ Proof.
     + destruct (split_step_inv st line st' (or_intror (ex_intro _ eq E))) as [I' F']. eapply IH; eauto.
 Qed.
 
-(* the iteration ended without raising: a final state exists and its bracket counter is zero *)
+(* the iteration ended without raising: a final state exists, its bracket counter is zero and no fence is open (85765d5) *)
 Lemma split_lines_final lines : forall st ys,
   split_lines st lines = (ys, None) -> exists stf, final_state st lines = Some stf /\ unmatched stf = 0.
-Proof.
-  induction lines as [|line rest IH]; intros st ys; cbn [split_lines final_state].
-  - destruct (unmatched st =? 0) eqn:E; [|discriminate]. intros _. exists st. split; [reflexivity|apply Nat.eqb_eq; exact E].
-  - destruct (split_step st line) as [st'|eq st'|e]; [apply IH| |discriminate].
-    destruct (split_lines st' rest) as [ys' e'] eqn:E2. intros H; inversion H; subst. eapply IH; eauto.
-Qed.
-(* conversely: it raised, and there is no final state, or the final bracket counter is not zero *)
+Proof. intros st ys H. destruct (split_lines_ok_closed lines st ys H) as (stf & A & B & _). eauto. Qed.
+(* conversely: it raised, and there is no final state, or the final bracket counter is not zero, or a fence is open *)
 Lemma split_lines_error_final lines : forall st ys e,
   split_lines st lines = (ys, Some e) ->
-  final_state st lines = None \/ exists stf, final_state st lines = Some stf /\ unmatched stf <> 0.
+  final_state st lines = None \/ exists stf, final_state st lines = Some stf /\ (unmatched stf <> 0 \/ complete stf = false).
 Proof.
   induction lines as [|line rest IH]; intros st ys e; cbn [split_lines final_state].
-  - destruct (unmatched st =? 0) eqn:E; [discriminate|]. intros _. right. exists st. split; [reflexivity|apply Nat.eqb_neq; exact E].
+  - destruct (complete st) eqn:Ec; cbn [negb]; [|intros _; right; exists st; auto].
+    destruct (unmatched st =? 0) eqn:E; [discriminate|]. intros _. right. exists st. split; [reflexivity|left; apply Nat.eqb_neq; exact E].
   - destruct (split_step st line) as [st'|eq st'|e']; [apply IH| |auto].
     destruct (split_lines st' rest) as [ys' e''] eqn:E2. intros H; inversion H; subst. eapply IH; eauto.
 Qed.
 
 (* ---------- the whole input ---------- *)
+(* For EVERY input on which the splitter raises nothing: the loop ends with an empty buffer, no bracket and no fence open;
+   the comment-stripped lines are exactly the chunks in order (no line is lost) and the statements are the non-blank chunks. *)
 Theorem accepted_lines_partition s ys :
   split_M s = (ys, None) ->
-  exists stf, final_state s0 (model_lines s) = Some stf /\ unmatched stf = 0 /\
-    model_lines s = (concat (model_chunks s) ++ rev (buffer stf))%list /\
-    ys = map join_nl (filter nonblank_chunk (model_chunks s)) /\
-    (buffer stf = [] \/
-     (complete stf = false /\ exists l b, rev (buffer stf) = l :: b /\ startswith "```" l = true)).
+  exists stf, final_state s0 (model_lines s) = Some stf /\ unmatched stf = 0 /\ complete stf = true /\ buffer stf = [] /\
+    model_lines s = concat (model_chunks s) /\
+    ys = map join_nl (filter nonblank_chunk (model_chunks s)).
 Proof.
   unfold split_M, model_chunks. intros H.
-  destruct (split_lines_final _ _ _ H) as (stf & Hf & Hu). exists stf.
-  split; [exact Hf|]. split; [exact Hu|].
-  split; [exact (chunks_conserve _ _ _ Hf)|]. split; [exact (split_lines_chunks _ _ _ _ H)|].
-  destruct st_inv_s0 as [I0 F0]. destruct (final_state_inv _ _ _ Hf I0 F0) as [[_ I2] F].
-  destruct (buffer stf) as [|x b] eqn:Eb; [left; reflexivity|right].
-  destruct I2 as [Hne|Hc]; [discriminate|contradiction|]. split; [exact Hc|]. rewrite <- Eb. apply F, Hc.
+  destruct (split_lines_ok_closed _ _ _ H) as (stf & Hf & Hu & Hc). exists stf.
+  destruct st_inv_s0 as [I0 F0]. destruct (final_state_inv _ _ _ Hf I0 F0) as [[_ I2] _].
+  assert (Hb : buffer stf = []).
+  { destruct (buffer stf) as [|x b] eqn:Eb; [reflexivity|]. destruct I2 as [Hne|Hc']; [discriminate|contradiction|congruence]. }
+  split; [exact Hf|]. split; [exact Hu|]. split; [exact Hc|]. split; [exact Hb|].
+  split; [|exact (split_lines_chunks _ _ _ _ H)].
+  pose proof (chunks_conserve _ _ _ Hf) as C. rewrite Hb in C. cbn [rev buffer s0 app] in C. rewrite app_nil_r in C. exact C.
+Qed.
+
+(* 85765d5: a fence that is still open when the input ends is ALWAYS a ParserError (the finding "an unclosed fence
+   silently drops every later statement" is repaired) *)
+Theorem unclosed_fence_is_parser_error s : ends_in_open_fence s = true -> snd (split_M s) = Some ParserError.
+Proof.
+  unfold ends_in_open_fence, split_M. destruct (final_state s0 (model_lines s)) as [stf|] eqn:Ef; [|discriminate].
+  intros H. apply negb_true_iff in H. exact (split_lines_open_fence _ _ _ Ef H).
 Qed.
 
 Lemma all_closed_spec s : all_closed s = true <-> exists stf, final_state s0 (model_lines s) = Some stf /\ buffer stf = [].
@@ -153,18 +158,21 @@ Proof.
   - split; [discriminate|intros (stf & H & _); discriminate].
 Qed.
 
-(* no exception and no fence left open: every line belongs to exactly one chunk, every non-blank chunk is a statement *)
+(* no exception: every line belongs to exactly one chunk, every non-blank chunk is a statement *)
+Theorem accepted_no_line_lost s ys :
+  split_M s = (ys, None) ->
+  all_closed s = true /\ ends_in_open_fence s = false /\ model_lines s = concat (model_chunks s) /\
+  ys = map join_nl (filter nonblank_chunk (model_chunks s)).
+Proof.
+  intros H. destruct (accepted_lines_partition s ys H) as (stf & Hf & _ & Hc & Hb & Hp & Hy).
+  split; [apply all_closed_spec; eauto|]. split; [unfold ends_in_open_fence; rewrite Hf, Hc; reflexivity|]. split; assumption.
+Qed.
+(* kept for importers (its second hypothesis is superfluous since 85765d5) *)
 Theorem closed_no_line_lost s ys :
   split_M s = (ys, None) -> ends_in_open_fence s = false ->
   all_closed s = true /\ model_lines s = concat (model_chunks s) /\
   ys = map join_nl (filter nonblank_chunk (model_chunks s)).
-Proof.
-  intros H Hc. destruct (accepted_lines_partition s ys H) as (stf & Hf & _ & Hp & Hy & Hb).
-  unfold ends_in_open_fence in Hc. rewrite Hf in Hc. apply negb_false_iff in Hc.
-  destruct Hb as [Hb|[Hb _]]; [|congruence].
-  split; [apply all_closed_spec; eauto|]. split; [|exact Hy].
-  rewrite Hp at 1. rewrite Hb. cbn. apply app_nil_r.
-Qed.
+Proof. intros H _. destruct (accepted_no_line_lost s ys H) as (A & _ & B & C). auto. Qed.
 
 (* ---------- a chunk dropped as blank is a single blank line ---------- *)
 Lemma paren_not_pyspace : is_pyspace "(" = false /\ is_pyspace "`" = false.
